@@ -1666,6 +1666,15 @@ func (p *parser) hoistSymbols(scope *js_ast.Scope) {
 				if existingMember, ok := s.Members[symbol.OriginalName]; ok {
 					existingSymbol := &p.symbols[existingMember.Ref.InnerIndex]
 
+					// A block-level function declaration in sloppy mode is not hoisted
+					// if it has the same name as one of the function's parameters
+					if isSloppyModeBlockLevelFnStmt && s.Kind == js_ast.ScopeFunctionBody {
+						if arg, ok := s.Parent.Members[symbol.OriginalName]; ok && arg.Ref == existingMember.Ref {
+							delete(p.hoistedRefForSloppyModeBlockFn, originalMemberRef)
+							continue nextMember
+						}
+					}
+
 					// We can hoist the symbol from the child scope into the symbol in
 					// this scope if:
 					//
